@@ -1332,29 +1332,6 @@ Proof.
   destruct H as [->|H]; [congruence|auto].
 Qed.
 
-(** The scope of the model, as a decidable predicate on a loaded world:
-    no file set lists an output file, and no rule or output is named like a
-    source file. *)
-Definition no_out_filesb (L : list node) (fl : list name) : bool :=
-  forallb (fun f => match find_node f L with
-                    | Some n => match ntype n with TOut => false | _ => true end
-                    | None => true
-                    end) fl.
-
-Definition scopeb (L : list node) (rules : list rule) (src : list (name * stat)) : bool :=
-  forallb (fun r => match r_kind r with
-                    | KFileSet files sels incs =>
-                        match expand_files (map fst src) files sels with
-                        | Some fl => no_out_filesb L fl
-                        | None => true
-                        end
-                    | KBundle _ => true
-                    end) rules &&
-  forallb (fun n => match ntype n with
-                    | TSrc => true
-                    | _ => match lookup (nname n) src with None => true | Some _ => false end
-                    end) L.
-
 Lemma file_errs_nil_no_bad ds e : file_errs ds = [] -> ~ In (DBad e) ds.
 Proof.
   unfold file_errs. intros H Hin.
@@ -2263,4 +2240,107 @@ Proof.
     + assert (Hno : node_outs (w_rules w) x = []) by (unfold node_outs; now rewrite Hr, Hk).
       rewrite Hno in Hvx. cbn [new_built fold_right] in Hvx. discriminate.
   - discriminate.
+Qed.
+
+(** * After a successful build every reachable rule is validly cached *)
+
+Theorem built_is_cached ts w w1 e1 L :
+  winv w -> build_in_scope ts w -> load_world w ts = LOk L -> build ts w = (w1, e1, BOk) ->
+  forall r F d, reach_rule L ts r -> sdig L (w_rules w) (w_src w) F r = Some d ->
+    valid_cached (w_out w1) (w_cache w1) d.
+Proof.
+  intros Hw Hs Hl Hb r F d Hreach Hd.
+  destruct (build_ok_run ts w w1 e1 L Hw Hs Hl Hb)
+    as (new & b1 & st1 & HG & Hn & Hok & Hrun & -> & -> & Hinv & Htk).
+  destruct (load_world_inv w ts L Hl) as (stl & Hrr & Hre & Htopo & Hts).
+  assert (Hsrcnd : forall n, In n L -> ntype n = TSrc -> ndeps n = []).
+  { intros n Hn' Hty. eapply loaded_src_nodeps; eauto. eapply read_roots_nonsrc; eauto. }
+  apply (reach_rule_visited L ts new r (wg_wf _ _ _ HG) Hts Hsrcnd Hn) in Hreach.
+  destruct Hreach as (x & Hx & <- & Hty).
+  destruct (tk_memo_done _ _ _ _ _ _ _ Htk x Hx) as [d' Hd'].
+  destruct Hinv as [[F1 HF1] _ _ _]. pose proof (HF1 _ _ Hd') as Hd2.
+  pose proof (sdig_unique _ _ _ _ _ _ _ _ Hd Hd2) as ->.
+  apply (hitb_valid st1 d'). exact (tk_valid _ _ _ _ _ _ _ Htk x d' Hx Hty Hd').
+Qed.
+
+(** * The statements over whole histories (as used by Props/C10.v) *)
+
+Theorem cache_valid_hist h rs src :
+  hist_in_scope h (empty_world rs src) -> winv (run h (empty_world rs src)).
+Proof. intros Hs. apply run_hist_inv; [apply winv_empty|assumption]. Qed.
+
+Theorem incremental_eq_clean_hist h rs src ts w1 e1 L :
+  hist_in_scope h (empty_world rs src) ->
+  let w := run h (empty_world rs src) in
+  build_in_scope ts w -> load_world w ts = LOk L -> build ts w = (w1, e1, BOk) ->
+  exists w2 e2, build ts (clean w) = (w2, e2, BOk) /\
+    forall r rl fs ss is',
+      reach_rule L ts r -> find_rule r (w_rules w) = Some rl -> r_kind rl = KFileSet fs ss is' ->
+      exists l, content_at (w_out w1) (fileset_out r) = Some (CList l) /\
+                content_at (w_out w2) (fileset_out r) = Some (CList l).
+Proof.
+  intros Hh w Hs Hl Hb. eapply incremental_eq_clean; eauto. now apply cache_valid_hist.
+Qed.
+
+Theorem noop_rebuild_hist h rs src ts w1 e1 :
+  hist_in_scope h (empty_world rs src) ->
+  let w := run h (empty_world rs src) in
+  build_in_scope ts w -> build ts w = (w1, e1, BOk) -> build ts w1 = (w1, [], BOk).
+Proof. intros Hh w Hs Hb. eapply noop_rebuild; eauto. now apply cache_valid_hist. Qed.
+
+Theorem exec_iff_hist h rs src ts w1 e1 L :
+  hist_in_scope h (empty_world rs src) ->
+  let w := run h (empty_world rs src) in
+  build_in_scope ts w -> load_world w ts = LOk L -> build ts w = (w1, e1, BOk) ->
+  forall r,
+    In r e1 <->
+    reach_rule L ts r /\
+    exists F d, sdig L (w_rules w) (w_src w) F r = Some d /\
+                ~ valid_cached (w_out w) (w_cache w) d.
+Proof. intros Hh w Hs Hl Hb. eapply exec_iff; eauto. now apply cache_valid_hist. Qed.
+
+Theorem built_is_cached_hist h rs src ts w1 e1 L :
+  hist_in_scope h (empty_world rs src) ->
+  let w := run h (empty_world rs src) in
+  build_in_scope ts w -> load_world w ts = LOk L -> build ts w = (w1, e1, BOk) ->
+  forall r F d, reach_rule L ts r -> sdig L (w_rules w) (w_src w) F r = Some d ->
+    valid_cached (w_out w1) (w_cache w1) d.
+Proof. intros Hh w Hs Hl Hb. eapply built_is_cached; eauto. now apply cache_valid_hist. Qed.
+
+Theorem failed_not_cached_hist h rs src ts w' ex e L :
+  hist_in_scope h (empty_world rs src) ->
+  let w := run h (empty_world rs src) in
+  build_in_scope ts w -> load_world w ts = LOk L -> build ts w = (w', ex, BFail e) ->
+  exists ex0 x F d,
+    ex = (ex0 ++ [x])%list /\ reach_rule L ts x /\
+    sdig L (w_rules w) (w_src w) F x = Some d /\ cache_get d (w_cache w') = None.
+Proof. intros Hh w Hs Hl Hb. eapply failed_not_cached; eauto. now apply cache_valid_hist. Qed.
+
+(** a build never runs out of the model's fuel *)
+Theorem build_total ts w : snd (build ts w) <> BOutOfFuel.
+Proof.
+  unfold build. destruct (load_world w ts) as [|es|L] eqn:Hl; simpl; try discriminate.
+  - exfalso. unfold load_world, load_nodes in Hl.
+    destruct (read_roots (graph_of w) [""]) as [st|] eqn:Hr;
+      [|now apply (read_roots_terminates (graph_of w) [""])].
+    destruct (r_errs st); [|discriminate].
+    destruct (load_all_spec (r_nodes st) (src_kind (w_src w)) ts) as [s' [El _]].
+    rewrite El in Hl. destruct (l_errs s'); discriminate.
+  - destruct (load_world_inv w ts L Hl) as (st & _ & _ & Htopo & _).
+    pose proof (topo_wf _ _ _ Htopo) as Hwf.
+    destruct (post_targets_total L Hwf ts []) as [new Hn].
+    rewrite (dfs_targets_post L bstate (bstate * failure) _ _ ts [] _ new Hn).
+    destruct (LoadProofs.run _ _ _ new _) as [[b st']|[st' e]]; simpl; discriminate.
+Qed.
+
+(** * The scope hypothesis as a computation *)
+
+Lemma build_in_scopeb_ok ts w : build_in_scopeb ts w = true -> build_in_scope ts w.
+Proof. unfold build_in_scopeb, build_in_scope. destruct (load_world w ts); auto. Qed.
+
+Lemma hist_in_scopeb_ok h : forall w, hist_in_scopeb h w = true -> hist_in_scope h w.
+Proof.
+  induction h as [|o h IH]; intros w H; simpl in *; [exact I|].
+  apply andb_true_iff in H. destruct H as [H1 H2]. split; [|now apply IH].
+  destruct o; auto. now apply build_in_scopeb_ok.
 Qed.
